@@ -161,6 +161,10 @@ def showCbs (l : List CB) : String := if l.isEmpty then "-" else ",".intercalate
 structure Ghost where
   now : Nat := 0
   validator : Nat := 0
+  /-- `(prev, curr)` pairs the validator was consulted with during the current step (from the line) -/
+  vseen : List (Nat × Nat) := []
+  /-- clear requests the processor has served in this life -/
+  clearsServed : Nat := 0
   /-- the callback of this life does not override `on_reject`: the trait's default hands a refused
   value to `on_exit` -/
   defaultReject : Bool := false
@@ -316,8 +320,12 @@ def monitorSnapshot (tl : Tally) (g : Ghost) (s : CSnap) (quiescentExtra : Bool)
     if quiescent then
       if u64 (ka - ke) != s.charges.length then
         tl := tl.monitorAt "C17" s!"keys_added - keys_evicted = {u64 (ka - ke)} but {s.charges.length} entries are charged"
+        if g.clearsServed > 0 then
+          tl := tl.monitorAt "C11" s!"after a served clear() the counters do not behave like those of a fresh cache: keys_added - keys_evicted = {u64 (ka - ke)} but {s.charges.length} entries are charged"
       if u64 (ca - ce) != u64 s.used then
         tl := tl.monitorAt "C17" s!"cost_added - cost_evicted = {u64 (ca - ce)} but used = {s.used}"
+        if g.clearsServed > 0 then
+          tl := tl.monitorAt "C11" s!"after a served clear() the counters do not behave like those of a fresh cache: cost_added - cost_evicted = {u64 (ca - ce)} but used = {s.used}"
     if !s.closed && hit + miss != g.lookups then
       tl := tl.monitorAt "C17" s!"hits + misses = {hit + miss} but {g.lookups} lookups were made on the open cache since the last clear"
     if !s.closed && ds != g.dropsExpected then
@@ -373,7 +381,7 @@ def finishStep (st : CacheSt) (tl : Tally) (c' : Cache) (what : String) (cbsMode
   let g := if snap.buf == 0 && g.blocked.isEmpty && quiescentExtra then
       { g with keyCharges := g.keyLatest.filter fun (k, _) => snap.charges.any (·.1 == k) }
     else g
-  let g := { g with due := g.due.filter fun (k, _) => snap.charges.any (·.1 == k) }
+  let g := { g with due := g.due.filter fun (k, _) => snap.charges.any (·.1 == k) || snap.items.any (·.1 == k) }
   ({ st with c := some (resync { c' with cbs := [] } snap), g := { g with prev := some snap } },
    { tl with ok := tl.ok + 1 })
 
@@ -523,6 +531,31 @@ partial def stepCache (st : CacheSt) (tl : Tally) (act : String) (ans : String) 
   | some c, some snap, some cbsImpl =>
     let su := shouldUpdateOf g.validator
     let now := g.now
+    -- C18: the validator is only ever shown the stored value of the very key being written: a value written
+    -- under the same index hash and a compatible conflict hash as the value it is asked to admit
+    let vseen : List (Nat × Nat) := match lookup r "vseen" with
+      | some t => if t == "-" || t == "" then [] else (t.splitOn ",").filterMap fun p =>
+          match p.splitOn ":" with
+          | [a, b] => match a.toNat?, b.toNat? with
+            | some a, some b => some (a, b)
+            | _, _ => none
+          | _ => none
+      | none => []
+    let tl := vseen.foldl (fun tl (pc : Nat × Nat) =>
+      -- the value being written by a client insert is not in the ghost yet: its key is on the line itself
+      let currKey : Option (Nat × Nat × Nat) := match g.origin.find? (·.1 == pc.2) with
+        | some o => some o
+        | none => match a with
+          | "c.insert" :: k :: cf :: v :: _ => match k.toNat?, cf.toNat?, v.toNat? with
+            | some k, some cf, some v => if v == pc.2 then some (v, k, cf) else none
+            | _, _, _ => none
+          | _ => none
+      match g.origin.find? (·.1 == pc.1), currKey with
+      | some (_, pk, pcf), some (_, ck, ccf) =>
+        if pk != ck || (pcf != 0 && ccf != 0 && pcf != ccf) then
+          tl.monitorAt "C18" s!"the UpdateValidator was consulted with the stored value {pc.1} of key ({pk},{pcf}) while value {pc.2} was being written under the colliding key ({ck},{ccf}): an operation on one key read the other key's value"
+        else tl
+      | _, _ => tl) tl
     let retS := (lookup r "ret").getD ""
     -- an unobserved sub-step: run it muted, keep its coverage, drop its comparisons
     let muted := fun (st : CacheSt) (tl : Tally) (act : String) (lead : String) =>
@@ -807,6 +840,37 @@ partial def stepCache (st : CacheSt) (tl : Tally) (act : String) (ans : String) 
         let tl := if ret == retI && (retS == "none" || retI.isSome) then tl else tl.divergeAt "c.getmut.ret" (toString ret) retS
         finishStep st tl c' "c.getmut" (newCbs c c') cbsImpl snap g
       | _, _, _ => (st, tl.badAt act)
+    | ["c.getheld", k, cf, adv] =>
+      -- a lookup whose ValueRef is kept while the clock moves on by `adv`; `ValueRef::ttl()` read before and after
+      match k.toNat?, cf.toNat?, adv.toNat? with
+      | some k, some cf, some adv =>
+        let (c', ret) := c.get k cf now
+        let retI := retS.toNat?
+        let tl := tl.bump (if ret.isSome then "getheld.hit" else "getheld.miss")
+        let showT := fun (o : Option Nat) => match o with | none => "max" | some n => toString n
+        let t0S := (lookup r "ttl0").getD "-"
+        let t1S := (lookup r "ttl1").getD "-"
+        -- C03 on the implementation's answers: judged against the entry the store held (and the ghost deadline)
+        let tl := match retI, g.prev.bind (fun s => findItem s k) with
+          | some v, some (_, _, _, d, cr) =>
+            let exp : Time := ⟨d, cr⟩
+            let tl := if t0S == showT (exp.getTtl now) then tl else
+              tl.monitorAt "C03" s!"ValueRef::ttl() of key {k} = {t0S} at {now}; the entry's TTL is {d} ns from {cr}, so it should report {showT (exp.getTtl now)}"
+            let tl := if t1S == showT (exp.getTtl (now + adv)) then tl else
+              tl.monitorAt "C03" s!"ValueRef::ttl() of key {k}, read again {adv} ns later through the same reference, = {t1S}; the entry's TTL is {d} ns from {cr}, so it should report {showT (exp.getTtl (now + adv))} (remaining time never increases; zero once the deadline has passed)"
+            match g.valDeadline.find? (·.1 == v) with
+            | some (_, dl) =>
+              let want0 := if dl == 0 then "max" else if now ≥ dl then "0" else toString (dl - now)
+              if t0S == want0 then tl else tl.monitorAt "C03" s!"ValueRef::ttl() of value {v} = {t0S} at {now}; the insert that wrote it set the deadline {dl}"
+            | none => tl
+          | _, _ => tl
+        let wasOpen := !((g.prev.map (·.closed)).getD false)
+        let g := if wasOpen then { g with lookups := g.lookups + 1, ringLookups := g.ringLookups + 1 } else g
+        let g := if c'.ring.isEmpty && !c.closed && !c.policyClosed then { g with flushed := g.flushed + c.ring.length + 1 } else g
+        let g := { g with now := now + adv }
+        let tl := if ret == retI && (retS == "none" || retI.isSome) then tl else tl.divergeAt "c.getheld.ret" (toString ret) retS
+        finishStep st tl c' "c.getheld" (newCbs c c') cbsImpl snap g
+      | _, _, _ => (st, tl.badAt act)
     | ["c.getttl", k, cf] =>
       match k.toNat?, cf.toNat? with
       | some k, some cf =>
@@ -1087,7 +1151,9 @@ partial def stepCache (st : CacheSt) (tl : Tally) (act : String) (ans : String) 
               | .new k _ cost _ _ =>
                 let expect := c.internalCost cost
                 let wasCharged := (g.prev.map fun p => (p.charges.find? (·.1 == k)).isSome).getD false
-                if (snap.charges.any (·.1 == k)) && !rejectedCb && (!wasCharged || expect ≤ snap.max) then
+                -- a new key is due its charge when admitted; a key the policy already charges is re-charged in
+                -- place by `policy.add` (and the item refused) unless the charge exceeds max_cost
+                if (snap.charges.any (·.1 == k)) && ((!wasCharged && !rejectedCb) || (wasCharged && expect ≤ snap.max)) then
                   { g with due := (k, expect) :: g.due.filter (·.1 != k) }
                 else g
               | .update k cost ext =>
@@ -1098,10 +1164,13 @@ partial def stepCache (st : CacheSt) (tl : Tally) (act : String) (ans : String) 
             let tl := match implItem.getD it with
               | .new k _ _ _ _ =>
                 let wasCharged := (g.prev.map fun p => (p.charges.find? (·.1 == k)).isSome).getD false
-                let dueNow := g.due.filter fun (j, _) => snap.charges.any (·.1 == j)
+                -- over everything that is resident or charged: an entry that stays resident after the policy
+                -- released its charge still occupies the cost it was given
+                let dueNow := g.due.filter fun (j, _) => snap.charges.any (·.1 == j) || snap.items.any (·.1 == j)
                 if (snap.charges.any (·.1 == k)) && !rejectedCb && !wasCharged &&
-                    snap.charges.all (fun (j, _) => dueNow.any (·.1 == j)) && sumCosts dueNow > snap.max then
-                  tl.monitorAt "C01" s!"after the admission of new key {k} the costs asked for the charged entries (given cost or Coster value + overhead, per the latest insert/update applied for each: {dueNow}) add up to {sumCosts dueNow} > max_cost = {snap.max} (the policy's own total reads {snap.used})"
+                    snap.charges.all (fun (j, _) => dueNow.any (·.1 == j)) &&
+                    snap.items.all (fun it => dueNow.any (·.1 == it.1)) && sumCosts dueNow > snap.max then
+                  tl.monitorAt "C01" s!"after the admission of new key {k} the costs asked for the resident / charged entries (given cost or Coster value + overhead, per the latest insert/update applied for each: {dueNow}) add up to {sumCosts dueNow} > max_cost = {snap.max} (the policy's own total reads {snap.used})"
                 else tl
               | _ => tl
             let g := match implItem.getD it with
@@ -1134,7 +1203,7 @@ partial def stepCache (st : CacheSt) (tl : Tally) (act : String) (ans : String) 
         -- resident values are dropped without callback by clear
         let g := { g with dropped := (g.prev.map residentVals).getD [] ++ g.dropped,
                           lookups := 0, dropsExpected := 0, rejectsExpected := 0, flushed := 0, lastWrite := [],
-                          ringLookups := snap.ring.length, lastDeadline := [], keyCharges := [], keyLatest := [], pressure := false, appliedSinceClear := 0,
+                          ringLookups := snap.ring.length, lastDeadline := [], keyCharges := [], keyLatest := [], pressure := false, appliedSinceClear := 0, clearsServed := g.clearsServed + 1,
                           releasedG := g.waitFifo ++ g.clearFifo.take 1 ++ g.releasedG, waitFifo := [],
                           clearFifo := g.clearFifo.drop 1 }
         finishStep st tl c' "p.clear" (newCbs c c') cbsImpl snap g
@@ -1165,6 +1234,10 @@ partial def stepCache (st : CacheSt) (tl : Tally) (act : String) (ans : String) 
                   | some (_, _, pv, d, cr) =>
                     let tl := if d != 0 && now ≥ cr + d then tl else tl.monitorAt "C05" s!"the sweep removed key {k} which has not expired (ttl={d} created={cr} now={now})"
                     let tl := if pv == v then tl else tl.monitorAt "C05" s!"on_evict for swept key {k} carried value {v}, resident value was {pv}"
+                    -- "its charged cost is released": the reclaimed key is no longer charged
+                    let tl := if snap.charges.any (·.1 == k) && !(snap.items.any (·.1 == k)) then
+                        tl.monitorAt "C05" s!"the sweep reclaimed expired key {k} (on_evict delivered, entry gone) but the policy still charges it {((snap.charges.find? (·.1 == k)).map (·.2)).getD 0}: its charge was not released"
+                      else tl
                     match p.charges.find? (·.1 == k) with
                     | some (_, ch) => if ch == ec then tl else
                         (tl.monitorAt "C05" s!"on_evict for swept key {k} carried cost {ec}, charged cost was {ch}").monitorAt "C16"
